@@ -96,6 +96,24 @@ def atoms(fn, ctx=None, cut=False):
             # `match a.checked_sub(b) { None => .., Some(d) => .. }` on unsigned integers is the test a < b (None side)
             from .prov import _UNSIGNED_CHECKED_SUB, strip as _strip
             x = _strip(term[1]) if term[0] == "discr" else None
+            if x is None and term[0] not in ("discr", "const") and len(t["ts"]) == 1 and t["ts"][0][1] != t["o"] \
+                    and (t.get("dt") or "")[:1] in ("u", "i") and (t.get("dt") or "")[1:].replace("size", "0").isdigit():
+                # `match v { K => .., _ => .. }` on an integer is the test v == K
+                try:
+                    k = int(t["ts"][0][0])
+                except ValueError:
+                    continue
+                a = Atom()
+                a.fn, a.block, a.line = fn, bi, t.get("l")
+                a.term, a.neg = ("bin", "Eq", term, ("const", k, None, t.get("dt"))), False
+                eq_t, ne_t = t["ts"][0][1], t["o"]
+                a.true_targets, a.false_targets = [eq_t], [ne_t]
+                a.true_fail, a.false_fail = cfg.fail_only(fn, eq_t), cfg.fail_only(fn, ne_t)
+                a.true_ret, a.false_ret = cfg.return_values_from(fn, eq_t), cfg.return_values_from(fn, ne_t)
+                a.true_codes = cfg.error_codes_from(fn, eq_t) if a.true_fail else set()
+                a.false_codes = cfg.error_codes_from(fn, ne_t) if a.false_fail else set()
+                out.append(a)
+                continue
             if x is None or x[0] != "call" or not _UNSIGNED_CHECKED_SUB.match(x[1]) or len(x[2]) != 2:
                 continue
             arms = {str(v): b for v, b in t["ts"]}
